@@ -74,6 +74,14 @@ class F_:
 ''' + "".join(f"  def __{n}__(self, o): return 0\n  def __r{n}__(self, o): return 0\n" for _, n in BINOPS)
 
 
+def _single(d):
+  nm = FIXED_NAMES[d]
+  return f"class G{d}_:\n  def {nm}(self{'' if d in (NEG, CALL) else ', o'}): return 0\n"
+
+
+SINGLE_CLASSES = "".join(_single(d) for d in range(CALL + 1))
+
+
 def fixed_user_classes():
   """The six generated classes of the oracle (with/without __add__, __radd__, __getitem__, __call__, __neg__,
   inherited), plus methods answering NotImplemented."""
@@ -102,7 +110,7 @@ def random_user_classes(r, n):
     pool = [0, 1, 0, 1, 2, 3, 4, 5, 6, 7, 18, 19, 20, 21, GETITEM, NEG, CALL]
     for d in r.sample(pool, r.choice([0, 1, 2, 3, 4])):
       z = r.random()
-      if z < 0.7:
+      if z < 0.7 or d >= 2 * N_BIN:      # __getitem__/__neg__/__call__: NotImplemented is just a value there
         dn[d] = "all"
       elif z < 0.85:
         dn[d] = []
@@ -298,7 +306,7 @@ def _run_jobs(jobs, procs=4):
 
 def run_cpython(preamble, texts):
   """Executes each statement in a fresh namespace (class definitions shared).  Returns
-  [(exception class name or None, type name of the value or None)]."""
+  [(exception class name or None, message, type name of the value or None)]."""
   base = {}
   exec(preamble, base)  # pylint: disable=exec-used
   out = []
@@ -307,9 +315,9 @@ def run_cpython(preamble, texts):
     var = t.split(" ", 1)[0]
     try:
       exec(t, ns)  # pylint: disable=exec-used
-      out.append((None, type(ns[var]).__name__))
+      out.append((None, "", type(ns[var]).__name__))
     except Exception as e:  # pylint: disable=broad-except
-      out.append((type(e).__name__, None))
+      out.append((type(e).__name__, str(e), None))
   return out
 
 
@@ -421,7 +429,19 @@ def probe_pytype(uni):
       e["accP"] = not errs
     else:
       e["accF"] = not errs
-  return rows, len(r1) + len(r2)
+  # cells where the empty class is rejected but the full one accepted: which single dunder suffices?
+  cells = [(i, n) for i in range(NB) for n, e in sorted(rows[i].items()) if e["accF"] and not e["accP"]]
+  texts = [f"v{k} = ({HEADS[i][1]}).{n}(G{d}_())" for k, (i, n, d) in
+           enumerate((i, n, d) for (i, n) in cells for d in range(CALL + 1))]
+  r3 = run_pytype(PROBE_CLASSES + SINGLE_CLASSES, texts) if texts else []
+  k = 0
+  for (i, n) in cells:
+    rows[i][n]["has"] = []
+    for d in range(CALL + 1):
+      if not r3[k][0]:
+        rows[i][n]["has"].append(d)
+      k += 1
+  return rows, len(r1) + len(r2) + len(r3)
 
 
 def probe_cpython(uni):
@@ -429,7 +449,7 @@ def probe_cpython(uni):
   accepted = anything but NotImplemented / TypeError (KeyError, IndexError, ZeroDivisionError ... count as
   accepted: they are not type errors)."""
   ns = {}
-  exec(PROBE_CLASSES, ns)  # pylint: disable=exec-used
+  exec(PROBE_CLASSES + SINGLE_CLASSES, ns)  # pylint: disable=exec-used
   rows = [dict() for _ in range(NB)]
   n_exec = 0
 
@@ -463,6 +483,8 @@ def probe_cpython(uni):
             e["acc"].append(a)
         e["accP"] = accepted(i, n, (ns["P_"](),))
         e["accF"] = accepted(i, n, (ns["F_"](),))
+        if e["accF"] and not e["accP"]:
+          e["has"] = [d for d in range(CALL + 1) if accepted(i, n, (ns[f"G{d}_"](),))]
       rows[i][n] = e
   return rows, n_exec
 
@@ -483,6 +505,23 @@ def coq_list(xs):
   return "[" + "; ".join(str(x) for x in xs) + "]"
 
 
+class TranslatorError(Exception):
+  pass
+
+
+def uacc_term(head, name, e):
+  """UNone / UAll / UHasAny [dunders]; fail closed when the probes do not fit that shape."""
+  if e["accP"]:
+    if not e["accF"] and name in FIXED_NAMES[:GETITEM + 1]:
+      raise TranslatorError(f"{head}.{name}: accepts an empty user class but rejects one with every dunder")
+    return "UAll"
+  if not e["accF"]:
+    return "UNone"
+  if not e.get("has"):
+    raise TranslatorError(f"{head}.{name}: accepts the full user class but no single dunder suffices")
+  return "(UHasAny " + coq_list(e["has"]) + ")"
+
+
 def emit_rows(ident, rows, mros, owners, names, user_may):
   """Coq text for one builtin table (list of brow)."""
   idx = {n: k for k, n in enumerate(names)}
@@ -492,10 +531,9 @@ def emit_rows(ident, rows, mros, owners, names, user_may):
     es = []
     for n in sorted(rows[i], key=lambda n: idx[n]):
       e = rows[i][n]
-      au = (e["accP"] or e["accF"]) if user_may else (e["accP"] and e["accF"])
       ow = owners(i, n)
       es.append(f"    mk_bentry {idx[n]} {i if ow is None else ow} {coq_bool(bool(e['call0']))} "
-                f"{coq_list(e['acc'])} {coq_bool(au)}")
+                f"{coq_list(e['acc'])} {uacc_term(HEADS[i][0], n, e)}")
     rs.append(f"  mk_brow {coq_list(mros[i])} [\n" + ";\n".join(es) + "]")
   out.append(";\n".join(rs) + "].")
   return "\n".join(out) + "\n"
